@@ -8,7 +8,8 @@ from ..adapters import resources as ra
 
 SWITCHES = ('ImplicitMapsLinked', 'ClearAllLayers', 'SetItemPopsAllLayers', 'StaticSlotsUnmangled', 'CacheTestsFlag')
 
-INV_TREE = ['TypeOK', 'OnePlace', 'PathEquivalence', 'DefaultIffKeyError', 'HandleXorMap', 'LatestWins', 'BackLinks']
+INV_TREE = ['TypeOK', 'OnePlace', 'PathEquivalence', 'DefaultIffKeyError', 'HandleXorMap', 'LatestWins', 'BackLinks',
+            'RootBackLinks']
 PROP_TREE = ['ClearDetaches']
 INV_CACHE = ['TypeOK', 'AtMostOneLoad', 'CachedTellsTruth']
 PROP_CACHE = ['SameObject', 'ValueStable']
@@ -23,10 +24,11 @@ def _set(xs):
 
 
 def consts(maps=3, handles=2, depth=2, layers=2, gen=2, ops='Ops_Tree', builders=None, receivers=None, phased=False,
-           kinds='Kinds_One', cls='Cls_Plain', **switches):
+           kinds='Kinds_One', cls='Cls_Plain', staging=False, **switches):
     """(constants, overrides) of one ResourcesMC instance.  Switches default to TRUE (= intended)."""
     c = {'Hd': _set('h%d' % i for i in range(1, handles + 1)), 'Names': _set('ab'), 'MaxDepth': depth,
          'MaxLayers': layers, 'MaxGen': gen, 'Phased': 'TRUE' if phased else 'FALSE',
+         'Staging': 'TRUE' if staging else 'FALSE',
          'Builders': _set(builders) if builders else None, 'Receivers': _set(receivers) if receivers else None}
     ov = {'MapOrder': 'MapOrder%d' % maps, 'Ops': ops, 'KindChoices': kinds, 'ClsChoices': cls}
     if ops.startswith('{'):         # a literal set is a cfg constant, a name is an override
